@@ -393,7 +393,7 @@ func floatLayers(tier string) []Layer {
 	}
 	// H2: SetFloat
 	{
-		fprecs := []uint{1, 24, 53, 64, 200, 2000}
+		fprecs := []uint{1, 24, 53, 64, 200, 2000, 13301, 26602} // the last two: ⌈p·log10 2⌉ differs from ⌈p·0.30103⌉
 		fexps := []int{-3000, -1074, -64, -1, 0, 1, 63, 64, 1023, 3000}
 		bmants := []string{"1", "1.1", "1.0000000000000000000001", "1.1111111111111111111111111111111111111111111111111111", "1.01010101010101", "1.11111111", "1.000000000000000000000000000000000000000000000000000000000000001", "1.1001001000011111101101010100010001000010110100011", "1." + strings.Repeat("0", 125) + "1", "1." + strings.Repeat("1", 189)}
 		layers = append(layers, Layer{
@@ -419,6 +419,9 @@ func floatLayers(tier string) []Layer {
 					for _, p := range []uint32{0, 1, 5, 17, 34, 100, 1000} {
 						for _, md := range []uint8{ToNearestEven, ToZero, AwayFromZero} {
 							for _, pre := range []int{preFresh, preInf, preLonger, preBigDirty} {
+								if fp > 2000 && (p > 34 || p == 1 || p == 5 || md != ToNearestEven || pre != preFresh) {
+									continue // very long mantissas: the precision-0 rule and two receiver precisions only
+								}
 								if c.Skip() {
 									continue
 								}
